@@ -1187,6 +1187,12 @@ func (m *Machine) callFunction(fn *ssa.Function, args []Value, caps []Value, pos
 		m.funcs["intrinsic:"+name]++
 		return h(m, fn, args)
 	}
+	if isProtoMarshal(fn) {
+		// generated proto Marshal of a request payload: opaque token of the message snapshot
+		m.funcs["intrinsic:proto-Marshal"]++
+		et := fn.Signature.Recv().Type()
+		return TupleVal{m.marshalTok(&IfaceVal{t: et, v: args[0]}), nilIface}
+	}
 	if fn.Name() == "String" && fn.Signature.Recv() != nil && fn.Signature.Params().Len() == 0 && fn.Pkg != nil {
 		// String() of SDK numeric / coin types only feeds logs, events and error texts: opaque,
 		// deterministic function of the value (formatting code forks heavily and decides nothing)
